@@ -251,4 +251,52 @@ theorem C13_csv_roundtrip (names : List Token) (rows : List (List Token)) (h : c
   rw [hall]
   rfl
 
+/-- **C13 (CSV, the hypothesis is sharp).**  For a rectangular table with at least one column whose names and
+    cell tokens are non-empty and newline-free: the text written by `_write_table` is read back as the same names
+    and the same rows of tokens **if and only if** no name and no cell token contains the delimiter.  (A delimiter
+    inside a token changes the number of pieces of its line: the header changes, or the row is a `ValueError`.) -/
+theorem C13_csv_roundtrip_iff (names : List Token) (rows : List (List Token)) (hne : names ≠ [])
+    (hrect : ∀ r ∈ rows, r.length = names.length)
+    (htok : ∀ l ∈ names :: rows, ∀ t ∈ l, t ≠ [] ∧ ∀ c ∈ t, c ≠ 10) :
+    csvRead (csvWrite names rows) = some (names, rows) ↔ ∀ l ∈ names :: rows, ∀ t ∈ l, ∀ c ∈ t, c ≠ 44 := by
+  have hrne : ∀ r ∈ rows, r ≠ [] := by
+    intro r hr e
+    have := hrect r hr
+    rw [e] at this
+    exact hne (List.eq_nil_of_length_eq_zero this.symm)
+  rw [csvRead_csvWrite_form names rows hne hrne htok]
+  constructor
+  · intro h
+    split at h
+    · simp only [Option.some.injEq, Prod.mk.injEq] at h
+      intro l hl
+      rcases List.mem_cons.mp hl with e | hl'
+      · rw [e]; exact sep_free_of_split_join 44 names hne h.1
+      · exact sep_free_of_split_join 44 l (hrne l hl')
+          (map_eq_self (fun r => splitOn 44 (joinWith 44 r)) rows h.2 l hl')
+    · cases h
+  · intro h
+    have hn : splitOn 44 (joinWith 44 names) = names := splitOn_joinWith 44 names hne (h names (by simp))
+    have hr : (rows.map fun r => splitOn 44 (joinWith 44 r)) = rows := by
+      conv => rhs; rw [← List.map_id rows]
+      apply List.map_congr_left
+      intro r hr
+      exact splitOn_joinWith 44 r (hrne r hr) (h r (by simp [hr]))
+    rw [hn, hr]
+    have hall : (rows.all fun r => r.length == names.length) = true := by
+      rw [List.all_eq_true]; intro r hr; simp [hrect r hr]
+    rw [hall]
+    rfl
+
+/-- **C13 (CSV, no two tables share a text).** Inside the hypothesis of the round trip, `_write_table` is
+    injective: different names or different cell tokens give different files. -/
+theorem C13_csv_write_injective (names names' : List Token) (rows rows' : List (List Token))
+    (h : csvHyp names rows = true) (h' : csvHyp names' rows' = true)
+    (e : csvWrite names rows = csvWrite names' rows') : names = names' ∧ rows = rows' := by
+  have h1 := C13_csv_roundtrip names rows h
+  have h2 := C13_csv_roundtrip names' rows' h'
+  rw [e, h2] at h1
+  simp only [Option.some.injEq, Prod.mk.injEq] at h1
+  exact ⟨h1.1.symm, h1.2.symm⟩
+
 end Fc
